@@ -244,6 +244,44 @@ def h_step_sack_abandon(ctx, q, ngaps):
         ctx.observe("left", len(left))
 
 
+def h_step_forward_acked(ctx, q):
+    """Sender: a FORWARD-TSN over j abandoned chunks is outstanding (with its stream entry) in front
+    of q ordinary outstanding chunks; one SACK arrives.  Once the peer's cumulative TSN covers the
+    forward point, the stream bookkeeping of that FORWARD-TSN is gone - a later FORWARD-TSN must not
+    name old (stream, sequence) pairs again; until then it stays and T3 stays armed."""
+    from .c02_drain import _check_inv, _sym_sender
+
+    with Env(crc=_crc()) as env:
+        t, base, chunks, sentlog = _sym_sender(ctx, env, q, 0)
+        j = ctx.int("abandoned_before", 1, 3)
+        ssn = ctx.int("fwd_ssn", 0, 0xFFFF)
+        t._last_sacked_tsn = (base - 1 - j) & U32
+        t._advanced_peer_ack_tsn = (base - 1) & U32
+        t._forward_tsn_streams = sx.SymDict() if sx.active() else {}
+        t._forward_tsn_streams[3] = ssn
+        t._build_forward_tsn()
+        t._forward_tsn_chunk = None  # it has been transmitted (_transmit sends it in the same call that builds it)
+        if not q:
+            t._t3_start()
+        _check_inv(ctx, t, "pre")
+        s = sctp.SackChunk()
+        adv = ctx.int("cum_advance", -4, q)
+        ctx.assume(adv >= -j - 1)
+        s.cumulative_tsn = (base - 1 + adv) & U32
+        s.advertised_rwnd = 131072
+        s.gaps = []
+        sx.run(t._receive_sack_chunk(s))
+        env.drain()
+        ctx.reach("sack-over-forward-tsn-processed")
+        _check_inv(ctx, t, "post")
+        acked = adv >= 0
+        if acked is True or (not isinstance(acked, bool) and bool(acked)):
+            ctx.check(len(t._forward_tsn_streams) == 0 and not t._forward_tsn_outstanding(), "acknowledged-forward-tsn-leaves-no-stream-entries")
+        else:
+            ctx.check(t._forward_tsn_outstanding() and len(t._forward_tsn_streams) == 1, "unacknowledged-forward-tsn-keeps-its-stream-entries")
+        ctx.observe("left", len(t._sent_queue))
+
+
 def h_step_forward_held(ctx, held):
     """Receiver, ordered PR stream: message s0 is lost and abandoned, `held` later messages were
     received and are waiting behind it when the FORWARD-TSN arrives; afterwards the sender's next
@@ -387,6 +425,7 @@ HARNESSES = {
     "bmc": Harness("bmc", h_bmc, _bmc_jobs, style="BMC", bounds="2 channels (reliable ordered + partially reliable: maxRetransmits 0/1 or lifetime, ordered/unordered); <=3 messages of <=2 (3) fragments; cwnd of 1, 2 or 8 fragments; 3 (quick) / 4 solver-chosen events; then a loss-free suffix and one fresh message per channel", encoded=ENC, stubs=STUBS, twin="suffix-done", opts={"samples": 1}),
     "step-forward-tsn": Harness("step-forward-tsn", h_step_forward_tsn, _fwd_layouts, style="STEP", bounds="4 (quick) / 6 interleavings of reliable and abandoned PR fragments over consecutive TSNs with symbolic origin; which reliable fragments arrived before the FORWARD-TSN is solver-chosen", encoded=ENC, stubs=STUBS, twin="forward-tsn-processed"),
     "step-sack-abandon": Harness("step-sack-abandon", h_step_sack_abandon, lambda tier: [{"q": q, "ngaps": g} for q in ((2, 3) if tier == "quick" else (2, 3, 4)) for g in (1, 2) if not (tier == "quick" and q == 3 and g == 2)], style="STEP", bounds="one maxRetransmits=0 message of 2..3 (4) fragments in flight with symbolic sizes, miss counters and gap-ack flags; one SACK with symbolic cumulative point and <=2 gap blocks; TSN origin symbolic", encoded=ENC, stubs=STUBS, twin="sack-over-pr-message-processed", opts={"samples": 1}),
+    "step-forward-acked": Harness("step-forward-acked", h_step_forward_acked, lambda tier: [{"q": q} for q in ((0, 1) if tier == "quick" else (0, 1, 2))], style="STEP", bounds="FORWARD-TSN over 1..3 abandoned chunks outstanding with one (stream, sequence) entry, 0..1 (quick) / 0..2 further outstanding chunks in arbitrary state, one SACK with symbolic cumulative point; TSN origin symbolic", encoded=ENC, stubs=STUBS, twin="sack-over-forward-tsn-processed", opts={"samples": 1}),
     "step-forward-held": Harness("step-forward-held", h_step_forward_held, lambda tier: [{"held": h} for h in ((0, 1) if tier == "quick" else (0, 1, 2))], style="STEP", bounds="ordered PR stream at a symbolic 16-bit sequence origin and 32-bit TSN origin: one lost message, 0..1 (quick) / 0..2 received messages held behind it, FORWARD-TSN over all of them, then the next two messages in swapped order", encoded=ENC, stubs=STUBS, twin="forward-tsn-over-held-processed", opts={"samples": 1}),
     "step-abandon": Harness("step-abandon", h_step_abandon, lambda tier: [{"nfrag": n, "nsent": s, "pos": 0} for n in (2, 3) for s in range(1, n + 1)], style="STEP", bounds="PR message of 2..3 fragments of which 1..n are in flight when T3 abandons it; TSN origin symbolic", encoded=ENC, stubs=STUBS, twin="abandoned"),
 }
